@@ -299,6 +299,67 @@ pub fn exec(toks: &[&str]) -> Vec<String> {
             }
             vec![format!("ok {}", d.get_changes(&[]).len())]
         }
+        // codec.docstr <seed>: C39 on the DOCUMENT chunk: a saved document whose map keys, mark names and change
+        // message are ASCII strings of 8..20 bytes; every occurrence of such a string in the bytes gets an
+        // invalid UTF-8 tail (last byte 0xff / a lone lead byte / two continuation bytes; also a middle byte),
+        // the checksum is recomputed, and the bytes are loaded without head verification: load fails, or every
+        // string the document hands out is valid UTF-8.   model: skip
+        "codec.docstr" => {
+            use sha2::Digest;
+            let mut rng = Rng::new(toks[1].parse().unwrap());
+            let words = ["username", "highlight", "first commit", "a-long-map-key", "0123456789abcdefg", "emphasis-strong", "list-of-items", "k2345678", "k23456789", "k234567890123456x"];
+            let mut d = AutoCommit::new_with_encoding(ENC).with_actor(ActorId::from(vec![0x21, 0x43]));
+            let mut used: Vec<&str> = vec![];
+            for _ in 0..rng.range(2, 5) { let w = words[rng.below(words.len() as u64) as usize]; let _ = d.put(&ROOT, w, rng.below(100) as i64); used.push(w); }
+            if let Ok(t) = d.put_object(&ROOT, "text-object", ObjType::Text) {
+                let _ = d.splice_text(&t, 0, 0, "hello wonderful world");
+                let w = words[rng.below(words.len() as u64) as usize];
+                let _ = d.mark(&t, automerge::marks::Mark::new(w.to_string(), true, 1, 9), automerge::marks::ExpandMark::After);
+                used.push(w); used.push("text-object");
+            }
+            let msg = words[rng.below(words.len() as u64) as usize];
+            d.commit_with(CommitOptions::default().with_time(0).with_message(msg.to_string()));
+            used.push(msg);
+            let bytes = d.save_with_options(automerge::SaveOptions { deflate: false, retain_orphans: false });
+            let (mut tried, mut accepted) = (0, 0);
+            let mut res = vec![];
+            used.sort(); used.dedup();
+            for w in used {
+                let wb = w.as_bytes();
+                let occ: Vec<usize> = (0..bytes.len().saturating_sub(wb.len())).filter(|i| &bytes[*i..*i + wb.len()] == wb).collect();
+                for o in occ {
+                    for variant in 0..4 {
+                        let mut b = bytes.clone();
+                        let end = o + wb.len();
+                        match variant { 0 => b[end - 1] = 0xff, 1 => b[end - 1] = 0xc3, 2 => { b[end - 2] = 0x80; b[end - 1] = 0xbf; } _ => b[o + wb.len() / 2] = 0xfe }
+                        // recompute the checksum of the (first = document) chunk
+                        let mut rd = &b[9..];
+                        let before = rd.len();
+                        let len = leb128::read::unsigned(&mut rd).unwrap() as usize;
+                        let hdr = 9 + (before - rd.len());
+                        let mut h = sha2::Sha256::new();
+                        let mut pre = vec![b[8]];
+                        leb128::write::unsigned(&mut pre, len as u64).unwrap();
+                        h.update(&pre); h.update(&b[hdr..hdr + len]);
+                        let hash = h.finalize();
+                        b[4..8].copy_from_slice(&hash[..4]);
+                        tried += 1;
+                        let r = std::panic::catch_unwind(|| AutoCommit::load_with_options(&b, automerge::LoadOptions::new().text_encoding(ENC).verification_mode(automerge::VerificationMode::DontCheck)));
+                        if let Ok(Ok(mut l)) = r {
+                            accepted += 1;
+                            let good = std::panic::catch_unwind(std::panic::AssertUnwindSafe(|| {
+                                let mut ok = doc_strings_ok(&mut l, &ROOT, ObjType::Map, 0);
+                                for c in l.get_changes(&[]) { if let Some(m) = c.message() { ok &= utf8_ok(m); } }
+                                ok
+                            })).unwrap_or(true);
+                            if !good { res.push(format!("! C39 sig=invalid-utf8-in-document a document chunk with an invalid UTF-8 tail in the string {:?} (variant {}) loads and hands out a string that is not valid UTF-8", w, variant)); }
+                        }
+                    }
+                }
+            }
+            res.insert(0, format!("ok tried={} accepted={}", tried, accepted));
+            res
+        }
         "codec.bundle" => {
             let raws: Vec<Vec<u8>> = toks[1].split(',').map(unhx).collect();
             let idx: Vec<usize> = if toks[2] == "-" { vec![] } else { toks[2].split(',').map(|x| x.parse().unwrap()).collect() };
@@ -941,6 +1002,8 @@ pub fn generate(r: &mut Rng, _opts: &BTreeMap<String, String>, sess: &mut Sessio
             exec_line(sess, &format!("codec.apply {}", hx(&mutated)), out);
         } else if first == "panic" { out.count("mutant_panicked"); } else { out.count("mutant_rejected"); }
     }
+    // 3b. invalid UTF-8 tails in the strings of a document chunk (C39 on the document load path)
+    if r.chance(1, 3) { exec_line(sess, &format!("codec.docstr {}", r.next() % 1_000_000), out); out.count("docstr_probes"); }
     // 4a. a large bundle whose actors interleave causally (A1 B1 C1 A2 …): more changes than any small-input
     //     special case of the (actor, seq) bookkeeping of the bundle reader covers
     if r.chance(1, 8) {
